@@ -156,6 +156,16 @@ def run_g_levels(chk, quick, replay):
                         nontrivial=nontrivial_g, sample_every=70001, timeout=3000)
     r2, n2 = flow.run_g(chk, mod, g_cfg(2, l16, l8, l5, maxlines), replay,
                         nontrivial=nontrivial_g, sample_every=30011, timeout=3000)
+    # directive words: the three directives in other letter cases and with neighbours, and words that a parser
+    # might have lying around as method or attribute names - "exactly so spelled ... the only directives"
+    words = ["define", "import", "include", "Define", "IMPORT", "Include", "defines", "imports", "includes", "def",
+             "key_value", "directive", "section", "start_section", "end_section", "parse", "error", "replace",
+             "nextline", "handle_define", "_define", "define_", "url", "lineno", "context", "stack", "file",
+             "defined", "undef", "if", "end", "__init__", "__class__"]
+    dreps = ["%" + w + " a b" for w in words] + ["%" + w for w in words[:6]] + ["<a>", "</a>"]
+    r3, n3 = flow.run_g(chk, g_module(dreps), g_cfg(2, l16, l8, l5, 1), replay,
+                        nontrivial=nontrivial_g, sample_every=97, timeout=900)
+    chk.note("g_directive_word_texts", n3)
     chk.note("g_level1_texts", n1)
     chk.note("g_level2_texts", n2)
     chk.note("g_bounds", {"L16": l16, "L8": l8, "L5": l5, "level2_lines": len(reps), "level2_maxlines": maxlines})
